@@ -526,7 +526,10 @@ func runC05(h *History, stt *stats) result {
 				unanswered = append(unanswered, e.label+":"+t)
 			}
 		}
-		if e.st.edsDue && len(e.subs["EDS"]) > 0 {
+		// (into a non-quiescent server the pushes of the away changes follow the first exchange on the new stream; a
+		// CDS PUSH is not owed an EDS response - the warming re-request of a real Envoy is outside this client model -,
+		// so there the clause is only "the first CDS answer was followed by an EDS answer at all")
+		if e.st.edsDue && len(e.subs["EDS"]) > 0 && (!hot || e.st.resps["EDS"] == 0) {
 			unanswered = append(unanswered, e.label+":EDS-after-CDS")
 		}
 		e.mu.Unlock()
